@@ -53,3 +53,24 @@ package origins
 //@   loop 0 invariant 1 <= i && i <= end
 //@   loop 0 invariant forall k :: 1 <= k && k < i ==> isSubsequentSchemeByte(str[k])
 //@   loop 0 decreases end - i
+
+//@ func Tree.IsEmpty
+//@   props C01 C02 C03 C06 C09 C10 C11 C16 C17 C18
+//@   pure
+//@   allocs <= 0
+//@   requires t != nil
+//@   ensures result == (t.root.schemes == nil && t.root.children == nil)
+
+//@ func Tree.Contains
+//@   props C01 C02 C03 C09 C10 C11 C13 C16 C17 C18
+//@   pure
+//@   allocs <= 0
+//@   trusted TEMPORARY until L3 is built
+//@   requires t != nil && o != nil
+//@   ensures result == TreeHas(t, o.Scheme, o.Host.Value, o.Port)
+
+//@ func Parse
+//@   props C01 C02 C03 C09 C10 C11 C13 C16 C17 C18
+//@   pure
+//@   allocs <= 0
+//@   trusted TEMPORARY until L2 is built
